@@ -98,6 +98,7 @@ func C14(run *mon.Run) {
 		go func(si int, sq []int) {
 			defer wg.Done()
 			defer func() { <-sem }()
+			defer run.Protect("c14 worker")
 			r := run.Rand(fmt.Sprintf("seq-%d", si))
 			seed := mon.RandBytes(r, 32)
 			if si%11 == 0 {
@@ -160,6 +161,7 @@ func C14(run *mon.Run) {
 		go func(off int) {
 			defer wg.Done()
 			defer func() { <-sem }()
+			defer run.Protect("c14 worker")
 			r := run.Rand(fmt.Sprintf("off-%d", off))
 			seed := mon.RandBytes(r, 32)
 			cust := mon.RandBytes(r, off%13)
